@@ -231,4 +231,71 @@ def session (resets : List String) (c : Cfg) : QState → List Act → QState ×
     let r := session resets c o.st qs
     (r.1, (o.raised, o.seen) :: r.2)
 
+/-! ## the memo layer: what is remembered must be replayable
+
+`jedi/inference/cache.py:_memoize_default` (behind `inference_state_method_cache`,
+`inference_state_function_cache`, `inference_state_as_method_param_cache`),
+`jedi/cache.py:memoize_method` and `time_cache` remember the object their function returned, as it
+is. If that object is a generator (or another one-shot iterator) the first reader consumes it and
+every later reader of the same key gets what is left. -/
+
+/-- what a memo entry holds for one key -/
+inductive Stored (α : Type) where
+  /-- a generator object stored as it is: `rest` is what it has not produced yet -/
+  | oneShot (rest : List α)
+  /-- the result of `list(...)` / `tuple(...)` / `ValueSet(...)`: immutable -/
+  | materialised (xs : List α)
+  /-- `inference_state_method_generator_cache`: `(actual_generator, cached_lst)` -/
+  | replaying (cached rest : List α)
+deriving DecidableEq, Repr
+
+/-- one reader that takes at most `k` elements (`k ≥ length` = `list(...)`; the pytest plugin stops
+at the first module that has the fixture): what it sees, and what the memo holds afterwards -/
+def Stored.read {α : Type} (k : Nat) : Stored α → List α × Stored α
+  | .oneShot rest => (rest.take k, .oneShot (rest.drop k))
+  | .materialised xs => (xs.take k, .materialised xs)
+  | .replaying cached rest =>
+    -- the wrapper yields `cached_lst[i]` while there is one, then pulls `next(actual_generator)`,
+    -- appends it to `cached_lst` and yields it
+    ((cached ++ rest).take k,
+     .replaying (cached ++ rest.take (k - cached.length)) (rest.drop (k - cached.length)))
+
+/-- successive readers of the same key -/
+def Stored.reads {α : Type} : Stored α → List Nat → List (List α)
+  | _, [] => []
+  | st, k :: ks => (st.read k).1 :: (st.read k).2.reads ks
+
+/-- how a decorator treats what the callable below it returns -/
+inductive DecKind where
+  | cache            -- remembers the returned object as it is
+  | generatorCache   -- inference_state_method_generator_cache: made for generator functions, replays
+  | protocolCache    -- signature_time_cache: takes key and value out of the generator itself
+  | materialise      -- to_list / to_tuple / iterator_to_value_set
+  | transparent      -- everything else (property, increase_indent, recursion decorators …) hands it on
+deriving DecidableEq, Repr
+
+def decKind (d : String) : DecKind :=
+  if ["_memoize_default", "inference_state_function_cache", "inference_state_method_cache",
+      "inference_state_as_method_param_cache", "memoize_method", "time_cache"].contains d then .cache
+  else if d = "inference_state_method_generator_cache" then .generatorCache
+  else if d = "signature_time_cache" then .protocolCache
+  else if ["to_list", "to_tuple", "iterator_to_value_set"].contains d then .materialise
+  else .transparent
+
+/-- walks a decorator stack from the function outwards (`ds` innermost first); `oneShot` = the
+callable below hands out a one-shot iterator. Every remembering decorator must see a replayable
+value; the two generator-aware ones must see a generator. -/
+def stackReplayable : List String → Bool → Bool
+  | [], _ => true
+  | d :: ds, oneShot =>
+    match decKind d with
+    | .cache => !oneShot && stackReplayable ds oneShot
+    | .generatorCache => oneShot && stackReplayable ds true    -- its wrapper is a generator again
+    | .protocolCache => oneShot && stackReplayable ds false
+    | .materialise => stackReplayable ds false
+    | .transparent => stackReplayable ds oneShot
+
+/-- one row of the translator's table: (file:qualname, decorators OUTERMOST first, one-shot) -/
+def entryReplayable (e : String × List String × Bool) : Bool := stackReplayable e.2.1.reverse e.2.2
+
 end JediModel.Determinism
